@@ -66,8 +66,10 @@ LEVEL = {
  "C16": ("Theorems C16_le_roundtrip, C16_be_inverse, C16_try_accepts, C16_try_verbatim, C17_len_error over all byte lists; the substance is the correspondence (index-probe arrays detect any "
          "transposed index in the literal big-endian index lists).", ""),
  "C17": ("Overflow errors: C01_encodeFinite / C09_nan_payload prove the needed width named is larger than the capacity, a multiple of 4 and sufficient; length errors: C17_len_error; "
-         "syntax errors: first-bad-byte / unexpected-end theorems of the parser package; the per-run check extracts the facts from the implementation's message text.",
-         "The message wording itself is outside the projection."),
+         "syntax errors: first-bad-byte / unexpected-end theorems of the parser package; integers and floats refused by the TryFrom impls: C17_conv_int / C17_conv_float "
+         "(the error of the model's TryFrom is wouldOverflow(capacity, needed) with needed larger, a multiple of 4, sufficient, and the capacity really too small), judgeConvErr*_model; "
+         "the per-run check extracts the facts from the implementation's message text.",
+         "The message wording itself is outside the projection (facts are extracted by the pinned wording first, by keywords and the figures named otherwise)."),
  "C18": ("Theorems C18_fns, C18_decode_limits, C18_extremes, C18_exp: max()/min()/min_positive() are ±(10^p−1)·10^qmax and 10^qmin for every width; every finite pattern lies within and, "
          "if non-zero, above (exact comparison after scaling by 10^bias); DIGITS-digit numerals are accepted exactly on [qmin, qmax].",
          "The byte constants MAX/MIN/MIN_POSITIVE/DIGITS/*_10_EXP are compared with the model's values by the `consts` request."),
